@@ -39,7 +39,7 @@ def _(run):
 
 # ------------------------------------------------------------------ XMLSchemaBase.get_element: the declaration a (tag, schema path) pair denotes
 from pyvc.se import *
-t = Target('schemas.get_element', ['C20', 'C06'], F, 'XMLSchemaBase.get_element', strings=True,
+t = Target('schemas.get_element', ['C20', 'C06', 'C04'], F, 'XMLSchemaBase.get_element', strings=True,
            note='the declaration returned for (tag, path): without a path (or a path that is the tag) the global element; for a path the declaration find() yields there '
                 'when it is an element named tag - a local declaration takes precedence over a global one of the same name; for a wildcard path `.../*` the step is '
                 'replaced by the tag first; otherwise the global element of that name (a substitute) or None; the result is never a declaration with another name',
